@@ -55,6 +55,17 @@ def gen_case(rng, tier, idx, fill=False):
     mode = rng.choice(["regular", "jitter", "dups", "gaps", "gaps"] if not fill else ["gaps", "gaps", "gaps", "gaps", "jitter", "dups"])
     rows = streams.make_rows(rng, n, rng.choice(["walk", "walk", "flat_runs", "zero_vol", "spiky"]), step, mode, tf_s,
                              max_gap_buckets=12 if fill else 60)
+    dead = fill and len(rows) >= 4 and rng.random() < 0.3
+    if dead:
+        # dead-market stretches: REAL candles that are flat at the previous close with volume 0 - exactly the shape of an inserted fill
+        # candle. A bucket made only of them is still a real bucket; gaps before and after it must be filled all the same (round 9, S10-A)
+        per = max(1, tf_s // step)
+        for _ in range(rng.randint(1, 3)):
+            k = rng.randint(1, len(rows) - 1)
+            for r in rows[k:k + rng.randint(1, 2 * per + 1)]:
+                c = rows[k - 1][4]
+                r[1] = r[2] = r[3] = r[4] = c
+                r[5] = 0
     if rng.random() < 0.08:
         streams.add_subsecond(rng, rows)  # bucketing is at second resolution: sub-second parts must simply be dropped, for every candle alike
     aware = None
@@ -88,7 +99,7 @@ def gen_case(rng, tier, idx, fill=False):
         for r in rows:
             r[5] = r[5] * 0.001234567891234
     return {"rows": rows, "tf": tf, "entry": entry, "lifespan_s": lifespan, "long_vol": long_vol,
-            "schedule": sch, "extra_passes": rng.choice([0, 0, 0, 1, 2, 3]), "ts_mode": mode if not long_gap else "long_gap", "fill": fill, "tf_enum": rng.random() < 0.25, "aware": aware}
+            "schedule": sch, "extra_passes": rng.choice([0, 0, 0, 1, 2, 3]), "ts_mode": mode if not long_gap else "long_gap", "dead": dead, "fill": fill, "tf_enum": rng.random() < 0.25, "aware": aware}
 
 
 def coarser(tf):
@@ -260,6 +271,8 @@ def run_case(case):
                     break
     except Exception as e:
         viol.append({"monitor": "exception", "sig": f"{prop}|raises|{entry}|{type(e).__name__}", "detail": f"{e!r}"[:600]})
+    if case.get("dead"):
+        stats["dead_market_streams"] = stats.get("dead_market_streams", 0) + 1
     if case.get("aware") and not viol:
         # the same instants expressed in another offset, collapsed in the same process: each stream lives on its own wall clock
         from datetime import timedelta as _td, timezone as _tz
